@@ -10,5 +10,5 @@ CONSTANTS
  AllowKnown <- FalseValue
 CHECK_DEADLOCK FALSE
 VIEW NoOutView
-INVARIANTS TypeOK Order LossOverflow LossNoOverflow Recipients RefExact FreeIffZero ChunkUnique NoLeak Conservation ChunksSuffice UsedBound LoanInside LimitsRespected
+INVARIANTS TypeOK Order LossOverflow LossNoOverflow Recipients FaultyPairQuiet RefExact FreeIffZero ChunkUnique NoLeak Conservation ChunksSuffice UsedBound CqFits LoanInside LimitsRespected
 PROPERTIES HasSamplesIff BeyondUnchanged
